@@ -158,7 +158,7 @@ def main():
         "hooks": {
             "guard": "cargo feature `verif_hooks` (crates pavex, pavex_session_memory_store, pavexc); off by default",
             "enable": "harness crates depend on the /repo crates by path with features=[\"verif_hooks\"] (engines/Cargo.toml)",
-            "baseline_off_cmd": "cd /repo && cargo nextest run --workspace --no-fail-fast --test-threads 8 --offline",
+            "baseline_off_cmd": "cd /repo && cargo test --workspace --no-fail-fast --offline",
             "source_commits": hook_commits,
             "add_only": True,
         },
